@@ -4,6 +4,7 @@ mod doc;
 mod exec;
 mod framework;
 mod rules;
+mod selftest;
 mod workload;
 mod prng;
 mod proto;
@@ -162,6 +163,31 @@ fn main() {
                 eprintln!("guardsim: note: could not disable ASLR; heap addresses are perturbed but not replay-exact");
             }
             std::process::exit(framework::run_check(check, &cfg));
+        }
+        Some("liveness") => match selftest::liveness() {
+            Ok(()) => {
+                println!("guardsim: seam liveness ok (getrandom, clock_gettime, readdir64, read, write are under simulator control)");
+            }
+            Err(e) => {
+                eprintln!("guardsim: SEAM LIVENESS FAILURE: {e}");
+                std::process::exit(2);
+            }
+        },
+        Some("selftest") => {
+            let n = flag("--n").and_then(|s| s.parse().ok()).unwrap_or(300);
+            let seed = flag("--seed").and_then(|s| s.parse().ok()).unwrap_or(framework::DEFAULT_SEED);
+            std::process::exit(selftest::selftest(n, seed));
+        }
+        Some("st-dump") => {
+            let n: u64 = args.get(2).and_then(|s| s.parse().ok()).unwrap_or(0);
+            let slot: usize = args.get(3).and_then(|s| s.parse().ok()).unwrap_or(0);
+            std::env::set_var("GSIM_ST_DUMP", "1");
+            let scratch = framework::scratch_dir();
+            let mut w = exec::Work::new(&scratch, slot);
+            use framework::Check;
+            let _ = selftest::SelfTest.run_scenario(&mut w, framework::DEFAULT_SEED, n, framework::Tier::Quick);
+            drop(w);
+            exec::rm_rf(&scratch);
         }
         Some("replay") => {
             let file = args.get(2).cloned().unwrap_or_default();
